@@ -86,6 +86,12 @@ def cases(tier, seed):
             for nrhs in (1, 3):
                 for dk in ("units", "hurwitz", "ones", "minus_ones", "mixed_one_unit", "equalmod2", "unit_times_pow2"):
                     out.append({"key": f"solve/{solver}/n={n}/nrhs={nrhs}/diag={dk}", "grp": "solve", "solver": solver, "n": n, "nrhs": nrhs, "sc": "1", "single": None, "diag": dk})
+    # off-diagonal part far larger than the diagonal (||T||_F >= 1e8 with diagonal moduli in 2^-20..1): the system is non-singular
+    for solver in ("Utriangle", "upper", "lower"):
+        for n in (2, 3, 6):
+            for oe in (27, 34):
+                for de in (0, -20):
+                    out.append({"key": f"solve/{solver}/n={n}/offdiag=2^{oe}/diag=2^{de}", "grp": "solve", "solver": solver, "n": n, "nrhs": 2, "sc": "1", "single": None, "offe": oe, "dge": de})
     scales = ["2^-20", "1e-6", "1", "1e6", "2^20"]
     for solver in ("Utriangle", "upper", "lower", "Utriangle_via_tq"):
         if solver == "Utriangle_via_tq":
@@ -265,6 +271,12 @@ def run_case(case, seed):
                     T[i, j] = 0.0
             elif not (T[j, i] if solver == "lower" else T[i, j]).any():
                 (T[j, i] if solver == "lower" else T[i, j])[2] = 1.0
+    if case.get("offe"):
+        for i in range(n):
+            for j in range(n):
+                if i != j:
+                    T[i, j] = np.ldexp(T[i, j], case["offe"])
+            T[i, i] = np.ldexp(T[i, i], case["dge"])
     dk = case.get("diag")
     if dk:
         hur = [np.array(v, float) / 2 for v in itertools.product((1, -1), repeat=4)]
